@@ -371,6 +371,16 @@ func (r *fidRun) step(e fidEdge) bool {
 }
 
 func (r *fidRun) stop(e fidEdge) bool {
+	if e.Lab.A.Name == "fail" {
+		// every release made by Stop reports an error (accounting goes on; a failing clunk is still a release)
+		r.fs.Decide = func(call string, h *sfs.Handle) sfs.Expect { return sfs.Expect{Call: call, Out: "fail"} }
+		ok := r.timed("stop", func() { r.sess.Stop(nil) })
+		r.fs.Decide = nil
+		if !ok {
+			return false
+		}
+		return r.checkState(e.To)
+	}
 	r.fs.StartProbe() // Stop releases in any order: no script, only accounting
 	if !r.timed("stop", func() { r.sess.Stop(nil) }) {
 		return false
